@@ -428,21 +428,31 @@ def s4b_coerce_prog(ctx):
     ctx.ask("c16.coerceprog.ok", ["ok", "true"], "the regenerated loop body of _coerce_iterable_units converts every element with in_units(ff)")
     for units in COERCE_GROUPS:
         for kname, lit, kind, (rtol, atol) in COERCE_KINDS:
-            for rname, tmpl in COERCE_ROUTES:
+            combos = [(rname, tmpl, "rot") for rname, tmpl in COERCE_ROUTES]
+            if kname in ("float", "int", "arr") and len(set(units)) > 1:
+                # where the first differing unit sits: only at the end / only in the middle of the list
+                combos += [(rname, tmpl, arr) for rname, tmpl in COERCE_ROUTES[::2] for arr in ("late", "mid")]
+            for rname, tmpl, arr in combos:
                 if kname == "f2" and "hr" in units:
                     continue                     # 25 hr in s overflows float16: NumPy precision, not C16
-                n = len(units) if rname == "ctor-list" else rng.randint(2, 4)
+                n = len(units) if (rname, arr) == ("ctor-list", "rot") else rng.randint(2, 4)
                 if ctx.tier != "thorough" and rname != "ctor-list" and kname not in ("float", "int", "arr") and rng.random() < 0.5:
                     continue
-                us = [units[i % len(units)] for i in range(n)]
+                if arr == "rot":
+                    us = [units[i % len(units)] for i in range(n)]
+                else:
+                    other = next(u for u in units if u != units[0])
+                    n = rng.randint(4, 6)
+                    us = [units[0]] * n
+                    us[n - 1 if arr == "late" else rng.randint(2, n - 2)] = other
                 # small readings (0..60, quarter steps: exact in float16/32; uint8 stays in range)
                 vals = [float(rng.randrange(0, 240)) / 4.0 for _ in us]
                 items = ", ".join(f"unyt_quantity({lit(v)}, {u!r})" if not kname.startswith("arr") else f"unyt_array({lit(v)}, {u!r})" for v, u in zip(vals, us))
                 src = L.SETUP + tmpl.format(items=items)
                 env = {}
                 st, r = outcome(lambda: exec(src, env))
-                chk.case(("coerceprog", tuple(units), kname, rname))
-                chk.count("S4b:" + rname + ":" + kname)
+                chk.case(("coerceprog", tuple(units), kname, rname, arr))
+                chk.count("S4b:" + rname + ":" + kname + ":" + arr)
                 lst = env.get("lst")
                 if lst is None:
                     chk.disagree("section:S4b", f"input list could not be built: {src}")
